@@ -74,6 +74,14 @@ def _bigint_backend(prop, v):
 
 # ---- D15: typing.Union equality ignores member order (C08, C12) ---------------------------------
 
+PINNED_MEMOISED = frozenset("""origin normalize_typevar name qualname resolve_supertype safe_get_params isbuiltintype isstdlibtype isbuiltinsubtype
+isstdlibsubtype isoptionaltype isuniontype isfinal isliteral isdatetype isdatetimetype istimetype istimedeltatype isdecimaltype isfractiontype
+isuuidtype isiterabletype isiteratortype istupletype issequencetype iscollectiontype issubscriptedcollectiontype ismappingtype isenumtype
+isclassvartype should_unwrap isfromdictclass isfrozendataclass istypeddict istypedtuple isnamedtuple isfixedtupletype istexttype isstringtype
+isbytestype isnumbertype isintegertype isfloattype isstructuredtype isgeneric issubscriptedgeneric iscallable isunresolvable isnonetype
+ispatterntype ispathtype istypealiastype unwrap""".split())  # the @compat.cache functions of py/inspection.py at the pinned commit
+
+
 @classifier("union-permutation-served-from-cache")
 def _union_perm(prop, v):
     """Union[A, B] == Union[B, A] and they hash alike, so every equality-keyed cache (routine, graph, predicates) serves
@@ -81,8 +89,13 @@ def _union_perm(prop, v):
     if prop == "C17":
         # Optional[X] == X | None (and Union[A, B] == Union[B, A]): a memoised spelling-sensitive accessor answers for
         # whichever spelling came first, so its answer changes after cache_clear()
-        return (v.get("kind") == "predicate-unstable" and v.get("union_object") is True
-                and v.get("predicate") in ("origin", "name", "qualname", "args", "isgeneric", "issubscriptedgeneric", "resolve_supertype", "unwrap"))
+        # only the functions that ARE memoised on the pinned tree; another one showing this (e.g. a newly cached args()) is new
+        if v.get("union_object") is not True:
+            return False
+        if v.get("kind") == "predicate-unstable":
+            return v.get("predicate") in PINNED_MEMOISED
+        return (v.get("kind") == "predicate-disagrees" and v.get("twin_warmed") is True
+                and v.get("predicate") in ("origin", "name", "qualname", "isgeneric", "issubscriptedgeneric", "resolve_supertype", "unwrap"))
     if v.get("pos_desc") == "union" and v.get("union_twin") is True and str(v.get("kind", "")).startswith("union-"):
         return True  # the same program holds an equal union with another member order
     return v.get("kind") in ("permutation-served-from-cache",) or (
